@@ -101,6 +101,13 @@ def cases(draw):
                 cands.append({"type": "rect", "x1": px[0] - 0.6, "y1": py[1] - 0.6, "x2": px[0] + 0.6, "y2": py[1] + 0.6, "id": "x%d" % k})
             else:
                 cands.append({"type": "circ", "cx": px[0], "cy": py[1], "r": 0.8, "id": "x%d" % k})
+        # regions hugging the bounding box of an arc's full circle: any planned point that strays from the true circle is caught
+        for k in range(draw(st.integers(0, 2)) if boxes else 0):
+            a1, b1, a2, b2 = boxes[draw(st.integers(0, len(boxes) - 1))]
+            side = draw(st.integers(0, 3))
+            g = 0.3
+            hug = [(a1 - g - 4, b1, a1 - g, b2), (a2 + g, b1, a2 + g + 4, b2), (a1, b1 - g - 4, a2, b1 - g), (a1, b2 + g, a2, b2 + g + 4)][side]
+            cands.append({"type": "rect", "x1": hug[0], "y1": hug[1], "x2": hug[2], "y2": hug[3], "id": "h%d" % k})
         for c in cands:
             f = fit(c, pts, boxes)
             if f is not None and (f["type"] == "circ" or (f["x1"] > 2 or f["y1"] > 2 or True)):
